@@ -160,7 +160,10 @@ def subSizeT (buflen k : Nat) : Nat := (buflen + 18446744073709551616 - k) % 184
 /-- the output loop of the MX/SRV branch over `names[i..]`:
 ```
 while (names[i][0] != '\0') {
-	int l = MIN(strlen(names[i]), buflen-offset-2);
+	int l;
+	/* buflen is unsigned: don't let the room left wrap around */
+	if ((size_t) offset + 2 >= buflen) break;
+	l = MIN(strlen(names[i]), buflen-offset-2);
 	if (l <= 0) break;
 	memcpy(buf + offset, names[i], l); offset += l;
 	*(buf + offset) = '\0'; offset++; i++;
@@ -177,6 +180,7 @@ def mxOut (buflen : Nat) : (names : List (List Nat)) → (out : List Nat) → Ex
       .ok (out.length, out')
     let s := cstr nm
     if s = [] then fin else
+    if out.length + 2 ≥ buflen then fin else
     let l := min s.length (subSizeT buflen (out.length + 2))
     if l = 0 then fin else
     if out.length + l > buflen then .error .oobWrite else do
